@@ -5,10 +5,13 @@ P=${1:-3}
 cd /verif
 run_one() {
   n=$1; id=${n:0:3}
+  cw=$(python3 -c "import json;print(json.load(open('/verif/seeded/$n/meta.json')).get('check_with',''))")
+  [ -n "$cw" ] && id=$cw
+  ex=$(python3 -c "import json;print(json.load(open('/verif/seeded/$n/meta.json')).get('expected',''))")
   out=$(/verif/tools/seeded_check.sh /verif/seeded/$n/patch.diff $id quick ${VERIF_SEED:-1} 2>&1)
   rc=$(echo "$out" | grep -o 'check-exit=[0-9]*' | cut -d= -f2)
   sig=$(echo "$out" | grep -m1 -E '^  C[0-9]{2}/' | tr -d ' ')
-  echo "$n exit=$rc $sig"
+  echo "$n check=$id exit=$rc $sig $ex"
 }
 export -f run_one
 ls seeded | grep -E '^C[0-9]{2}' | xargs -P $P -I{} bash -c 'run_one {}' | sort > seeded/RESULTS.txt
